@@ -375,6 +375,12 @@ class World:
             return d
         raise OutOfSubset("dict() of symbolic stream")
 
+    def type_of(self, I, x):
+        raise OutOfSubset("type(x) needs a typed world")
+
+    def class_getitem(self, I, cls, key):
+        raise OutOfSubset(f"{cls!r}[...] needs a typed world")
+
     def sum_stream(self, I, seq):
         raise OutOfSubset("sum over symbolic stream needs a typed world")
 
@@ -484,6 +490,14 @@ class PyClassToken(SymObj):
 
     def py_is(self, I, other):
         return isinstance(other, PyClassToken) and other.name == self.name
+
+    def py_call(self, I, args, kwargs):
+        if self.name == "type" and len(args) == 1:
+            return I.world.type_of(I, args[0])
+        raise OutOfSubset(f"call of builtin class {self.name}")
+
+    def py_getitem(self, I, key):
+        return I.world.class_getitem(I, self, key)
 
     def py_eq(self, I, other):
         if isinstance(other, PyClassToken):
